@@ -87,6 +87,24 @@ def run_slice_views(ctx, flavor="asan"):
                 bounds_events=sum(e for s, e in acc.events.items() if SITE_NAMES.get(s) in BOUNDS_SITES))
 
 
+def _phase_hooks(CR, r):
+    """per-phase hook counters of one type-level record ({} if the record ended early)"""
+    try:
+        if r.g.op.family == "view":
+            p = CR.parse_view_record(r.toks)
+            return p["hk"] if p else {}
+        p = CR.parse_index_record(r.toks)
+        return p[1]["hk"] if p else {}
+    except (ValueError, IndexError, KeyError):
+        try:
+            if r.g.op.family == "view":
+                p = CR.parse_view_record(r.toks, static_only=True)
+                return p["hk"] if p else {}
+        except (ValueError, IndexError, KeyError):
+            pass
+        return {}
+
+
 def run_typelevel(ctx):
     """the generated type-level programs of C09/C11 (same binaries): capacity / bounds hook violations per phase for calls the
     reference accepts.  -> summary dict"""
@@ -112,20 +130,20 @@ def run_typelevel(ctx):
             continue            # not an accepted argument (or a broken precondition): nothing is demanded here
         nacc += 1
         ctx.ev()
-        hk = CR.phase_hooks(r)
+        hk = _phase_hooks(CR, r)
         for tag, d in hk.items():
             for site, (viol, v, b, ev) in d.items():
                 events[site] = events.get(site, 0) + ev
-                if not viol or site not in ("svec_capacity", "bounds"):
+                if not viol or site != "svec_capacity":
                     continue
                 if tag == "HK0":
                     continue    # arguments are built by the harness itself
-                phase = {"HK1": "view", "HK2": "eval"}.get(tag, "operand")
+                phase = {"HK1": "view" if r.g.op.family == "view" else "call", "HK2": "eval"}.get(tag, "operand")
                 ctx.violation("typelevel:%s:%s:%s:hook:%s" % (r.g.op.name, G.cfg_class(r.inst.cfg), phase, site),
                               "[%s] %s(%s) configuration %s: %s (value %d, bound %d) while the %s" % (
                                   r.flavor, r.g.op.name, CR.vals_brief(r), r.inst.cfg,
                                   "a static_vector was asked to exceed its capacity" if site == "svec_capacity" else "an index left its extent / logical size",
-                                  v, b, {"view": "view was built and read", "eval": "view was evaluated", "operand": "operand was built"}[phase]),
+                                  v, b, {"view": "view was built and read", "call": "result was computed", "eval": "view was evaluated", "operand": "operand was built"}[phase]),
                               dict(line=r.line))
         if sum(ev for d in hk.values() for (_, _, _, ev) in d.values()) > 0:
             ctx.seen(("typelevel", r.flavor, r.g.op.name, r.inst.cfg, str(CR.vals_brief(r))))
